@@ -24,6 +24,9 @@ pub struct RunReport {
   pub case: Value,
   /// compact outcome fingerprint for the determinism table
   pub outcome_hash: u64,
+  /// ordered pairs of shared-state access sites between which the scheduler
+  /// switched threads in this run (coverage measure)
+  pub site_pairs: BTreeSet<(String, String)>,
 }
 
 pub trait Property: Sync {
@@ -112,6 +115,7 @@ struct Agg {
   unsafe_hits: BTreeMap<String, u64>,
   /// known finding -> number of runs of this worker that hit it
   known_hits: BTreeMap<String, u64>,
+  site_pairs: BTreeSet<(String, String)>,
 }
 
 /// One worker process: runs indices `id, id + workers, ...` single-threaded
@@ -141,6 +145,7 @@ pub fn run_worker(
     }
     a.log_hashes.insert(r.log_hash);
     a.case_hashes.insert(r.case_hash);
+    a.site_pairs.extend(r.site_pairs.iter().cloned());
     if r.nontrivial {
       a.nontrivial_hashes.insert(r.case_hash ^ r.log_hash.rotate_left(17));
     }
@@ -247,7 +252,9 @@ pub fn run_property(p: &dyn Property, cfg: &RunCfg) -> i32 {
   let mut table = vec![];
   let mut unsafe_hits: BTreeMap<String, u64> = BTreeMap::new();
   let mut known_hits: BTreeMap<String, (u64, String)> = BTreeMap::new();
+  let mut site_pairs: BTreeSet<(String, String)> = BTreeSet::new();
   for a in aggs {
+    site_pairs.extend(a.site_pairs.iter().cloned());
     for (k, v) in a.known_hits {
       known_hits.entry(k).or_insert((0, String::new())).0 += v;
     }
@@ -336,6 +343,7 @@ pub fn run_property(p: &dyn Property, cfg: &RunCfg) -> i32 {
           skipped: false,
           case: case.clone(),
           outcome_hash: 0,
+          site_pairs: BTreeSet::new(),
         },
         vec![],
       )
@@ -417,6 +425,8 @@ pub fn run_property(p: &dyn Property, cfg: &RunCfg) -> i32 {
           "thread_switches": counters.get("switches").copied().unwrap_or(0),
         },
         "distinct_interleavings": log_hashes.len(),
+        "distinct_cross_thread_site_pairs": site_pairs.len(),
+        "cross_thread_site_pairs_sample": site_pairs.iter().take(40).map(|(a, b)| format!("{} -> {}", a, b)).collect::<Vec<_>>(),
         "distinct_cases": case_hashes.len(),
         "runs_skipped_out_of_domain": skipped,
         "faults_fired": faults,
